@@ -129,6 +129,30 @@ def run(rep, tier, pool, variants=("shipped",)):
                 d = diff_methods(norm_module(o2), shipped_meta)
                 if d:
                     rep.violation(f"C16 shipped pegen/grammar_parser.py differs from what {interp} generates from pegen/metagrammar.gram: {d[:6]}", {"property": "C16", "interpreter": interp, "differing": d[:50]})
+        # ... nor on the interpreter's optimisation level (python -O / PYTHONOPTIMIZE strip assert statements)
+        for flags, extra in [(["-O"], {}), (["-OO"], {}), ([], {"PYTHONOPTIMIZE": "1"})]:
+            env = dict(os.environ, PYTHONPATH=str(REPO), PYTHONHASHSEED="0", **extra)
+            tag = "".join(flags).strip("-") or "envO"
+            o1 = tmp / f"parser_opt_{tag}.py"
+            pr = subprocess.run([PY, *flags, str(REPO / "tasks" / "generator.py"), "-o", str(o1)], env=env, capture_output=True, text=True, timeout=300, cwd="/")
+            programs += 1
+            rep.case(("xonsh.gram", "optimisation", tag), True)
+            if pr.returncode != 0:
+                rep.violation(f"C16 generation step fails under python {' '.join(flags)} {extra}: {short(pr.stderr[-200:], 150)}", {"property": "C16", "step": "tasks/generator.py", "flags": flags, "env": extra, "stderr": pr.stderr[-2000:]})
+            else:
+                d = diff_methods(norm_methods(o1), shipped)
+                if d:
+                    rep.violation(f"C16 shipped peg_parser/parser.py differs from what python {' '.join(flags)} {extra} generates from tasks/xonsh.gram in {len(d)} method(s): {d[:6]}", {"property": "C16", "flags": flags, "env": extra, "differing_methods": d[:50]})
+            o2 = tmp / f"meta_opt_{tag}.py"
+            pr = subprocess.run([PY, *flags, "-m", "pegen", str(REPO / "pegen" / "metagrammar.gram"), "-o", str(o2), "-q"], env=env, capture_output=True, text=True, timeout=300, cwd=str(REPO))
+            programs += 1
+            rep.case(("metagrammar.gram", "optimisation", tag), True)
+            if pr.returncode != 0:
+                rep.violation(f"C16 metagrammar generation step fails under python {' '.join(flags)} {extra}: {short(pr.stderr[-200:], 150)}", {"property": "C16", "step": "python -m pegen pegen/metagrammar.gram", "flags": flags, "env": extra, "stderr": pr.stderr[-2000:]})
+            else:
+                d = diff_methods(norm_module(o2), shipped_meta)
+                if d:
+                    rep.violation(f"C16 shipped pegen/grammar_parser.py differs from what python {' '.join(flags)} {extra} generates from pegen/metagrammar.gram: {d[:6]}", {"property": "C16", "flags": flags, "env": extra, "differing": d[:50]})
         # determinism is a property of the GENERATOR: other grammars (keywords that differ only in case, several helper rules of
         # the same shape, soft keywords) generated under several hash seeds by both generators must come out identical
         probes = {
